@@ -1,6 +1,7 @@
 import PhysisModel.Model.GearSets
 import PhysisModel.Spec.GearSetLayout
 import PhysisModel.Proofs.LeRead
+import PhysisModel.Proofs.Utf8Lossy
 /-! Helper lemmas for C09 (gear sets): the model of `src/gearsets.rs` / `src/dat.rs` against `Spec/GearSetLayout`. -/
 namespace Physis.GearSets
 open Physis.LeRead
@@ -229,7 +230,8 @@ theorem readNullString_name (name rest : Bytes) (h : 0 ∉ name) :
 
 theorem readSet_encSome (g : Spec.GearSet.GearSet) (rest : Bytes)
     (hlen : g.name.length ≤ 46) (hnul : 0 ∉ g.name) (hs : g.slots.length = 14)
-    (hok : ∀ s ∈ g.slots, ∀ x, s = some x → SlotOK x) (hf : g.facewear ≠ some 0) :
+    (hok : ∀ s ∈ g.slots, ∀ x, s = some x → SlotOK x) (hf : g.facewear ≠ some 0)
+    (hutf : Spec.Fiin.utf8Valid g.name = true) :
     readSet (encSome g ++ rest) = some (ofSet g, rest) := by
   have e : 47 - g.name.length = (46 - g.name.length) + 1 := by omega
   have e2 : 47 - (g.name.length + 1) = 46 - g.name.length := by omega
@@ -241,7 +243,8 @@ theorem readSet_encSome (g : Spec.GearSet.GearSet) (rest : Bytes)
   rw [List.drop_left' (by simp)]
   simp only [takeU64_put, NUMBER_OF_GEARSLOTS,
     hslots _ (fun x hx r => readSlot_encSlot x r (hok x hx)), takeU32_put,
-    convertFromSlots_slotVal _ hok, convertIdOpt_optId _ hf]
+    convertFromSlots_slotVal _ hok, convertIdOpt_optId _ hf,
+    Proofs.Utf8Lossy.fromUtf8Lossy_valid _ hutf]
   rfl
 
 /-- what the reader returns for a stored set (before `convert_from_gearsets`) -/
@@ -254,10 +257,10 @@ theorem readSet_encSet (o : Option Spec.GearSet.GearSet) (rest : Bytes) (h : ∀
   cases o with
   | none =>
     exact readSet_encSome emptySet rest (by decide) (by decide) (by decide)
-      (by intro s hs x hx; simp [emptySet] at hs; rw [hs] at hx; cases hx) (by decide)
+      (by intro s hs x hx; simp [emptySet] at hs; rw [hs] at hx; cases hx) (by decide) (by decide)
   | some g =>
-    obtain ⟨_, hlen, hnul, hs, hok, hf⟩ := h g rfl
-    exact readSet_encSome g rest hlen hnul hs hok hf
+    obtain ⟨_, hlen, hnul, hs, hok, hf, hutf⟩ := h g rfl
+    exact readSet_encSome g rest hlen hnul hs hok hf hutf
 
 theorem convertFromGearsets_setVal (l : List (Option Spec.GearSet.GearSet))
     (h : ∀ s ∈ l, ∀ g, s = some g → SetOK g) :
